@@ -301,6 +301,7 @@ def validate_trace_sharded(ctx, module, cfg, trace_path, shards=6, timeout=1800,
             d["index"] = parts[k][1][d["index"] - 1] + 1
             ctx.cov["drift"].append(d)
         ctx.cov["tlc_runs"] += cov["tlc_runs"]
+        ctx.cov["discarded"] = ctx.cov.get("discarded", 0) + cov.get("discarded", 0)
     fails.sort(key=lambda f: f["index"])
     return total, fails
 
@@ -325,6 +326,8 @@ def validate_trace(ctx, module, cfg, trace_path, timeout=1200, heap="8g", extra_
             fails.append({"index": v[1], "id": v[2], "reasons": v[3] if len(v) > 3 else []})
         elif v[0] == "DRIFT":
             ctx.cov["drift"].append({"index": v[1], "id": v[2], "what": v[3] if len(v) > 3 else ""})
+        elif v[0] == "DISCARD":
+            ctx.cov["discarded"] = ctx.cov.get("discarded", 0) + 1
     if result is None or not r.ok:
         sys.stderr.write(r.raw + "\n")
         raise ToolError("trace validation %s did not consume the whole trace (timeout=%s error=%s)" %
